@@ -77,13 +77,76 @@ def groups(tier, seed):
     yield {'tree': 'lim', 'agg': True, 'cases': [{'roots': r, 'N': n, 'arc': a} for r in ('dot', 'two') for n in (None, 1, 2, 5) for a in (False, True)]}
     # family 4: grouped rows are rows too
     yield {'tree': 'lim', 'grouped': True, 'cases': [{'gorder': o, 'gkey': k} for k in ('ext', 'size', 'is_dir') for o in (None, 'key', 'key desc', 'count desc')]}
+    # family 4b: any grouped query shape - LIMIT N gives the first N rows of the same query without LIMIT (differential):
+    # no aggregate selected, several keys selected in another order than grouped, keys behind functions, arithmetic over aggregates
+    yield {'tree': 'lim', 'gdiff': True, 'cases': [{'sel': sel, 'gby': gby, 'ob': ob}
+           for sel, gby, obs in GDIFF for ob in obs]}
     # family 3: all small shapes
     for sh in core.tree_shapes(5 if tier == 'quick' else 7):
         yield {'tree': ['shape', sh], 'cases': [{'where': False, 'order': o, 'roots': 'dot', 'mode': m, 'arc': False, 'rd': None}
                                                 for o in (0, 1, 3) for m in (None, 'dfs')]}
 
 
+GDIFF = [
+    ('path', 'ext', (None, 'path', 'path desc')), ('name, path', 'size', ('path', 'name desc, path')), ('path', 'ext, size', ('path desc', 'size, path')),
+    ('ext, size, count(*)', 'size, ext', ('ext', 'ext desc', 'size', 'size desc, ext', 'ext, size desc', 'count(*) desc, ext, size')),
+    ('size, ext, sum(size)', 'ext, size', ('size', 'ext desc, size', '1', '2, 1 desc')),
+    ('is_dir, ext, size, count(*)', 'size, is_dir, ext', ('ext, size', 'size desc, ext', 'is_dir, ext desc, size')),
+    ('count(*), ext, size', 'size, ext', ('ext, size', 'size, ext desc', '1 desc, 2, 3')),
+    ('upper(ext), length(name), count(*)', 'length(name), upper(ext)', ('upper(ext), length(name)', 'length(name) desc, upper(ext)')),
+    ('ext, max(size) - min(size), count(*)', 'ext', ('ext', 'max(size) - min(size) desc, ext')),
+]
+
+
+def eval_gdiff(env, root, group):
+    res = []
+    for c in group['cases']:
+        ncols = len(c['sel'].split(', '))
+        base = '%s from . group by %s%s' % (c['sel'], c['gby'], ' order by ' + c['ob'] if c['ob'] else '')
+        o = env.run([base + ' into list'], cwd=root)
+        full = o.rows(ncols)
+        if o.rc != 0 or o.err or full is None:
+            res.append({'case': dict(c, N=None, fam='gdiff', query=base), 'status': 'viol', 'cls': 'status', 'detail': dict(o.brief(), query=base),
+                        'sig': ('err',), 'nt': True, 'layer': 'grouped-differential'})
+            continue
+        if ncols == 1:
+            full = [(x,) for x in full]
+        M = len(full)
+        sel = [x.strip() for x in c['sel'].split(', ')]
+        okeys = []
+        for part in (c['ob'].split(', ') if c['ob'] else []):
+            col = part[:-5] if part.endswith(' desc') else part
+            okeys.append(int(col) - 1 if col.isdigit() else sel.index(col) if col in sel else None)
+        for N in [0] + list(range(1, M + 3)):
+            if group.get('only_n', 'all') != 'all' and N != group['only_n']:
+                continue
+            q = base + ' limit %d into list' % N
+            o = env.run([q], cwd=root)
+            rows = o.rows(ncols)
+            if rows is not None and ncols == 1:
+                rows = [(x,) for x in rows]
+            want = M if N == 0 else min(N, M)
+            r = {'case': dict(c, N=N, fam='gdiff', query=q), 'nt': 0 < N < M, 'layer': 'grouped-differential'}
+            bad = None
+            if o.timeout or o.rc != 0 or o.err or rows is None:
+                bad = ('status', o.brief())
+            elif len(rows) != want:
+                bad = ('row-count-grouped', {'got': len(rows), 'expected': want})
+            elif any(rows.count(x) > full.count(x) for x in rows):
+                bad = ('group-rows-wrong', {'rows': rows[:5]})
+            elif c['ob'] and None not in okeys and [tuple(x[i] for i in okeys) for x in rows] != [tuple(x[i] for i in okeys) for x in full[:want]]:
+                bad = ('not-the-top-n-groups', {'got': rows[:6], 'expected': full[:min(want, 6)]})
+            if bad:
+                r.update(status='viol', cls=bad[0], detail=dict(bad[1], query=q), sig=('viol', bad[0]))
+            else:
+                r.update(status='ok', sig=tuple(rows))
+            res.append(r)
+    return res
+
+
 def single(case):
+    if case.get('fam') == 'gdiff':
+        return {'tree': 'lim', 'gdiff': True, 'cases': [{k: case[k] for k in ('sel', 'gby', 'ob')}], 'only_n': case['N'] if case['N'] is not None else 'all'}
     if case.get('fam') == 'selonly':
         return {'tree': 'lim', 'selonly': True, 'cases': [{k: case[k] for k in ('sel', 'N', 'roots')}]}
     if case.get('fam') == 'agg':
@@ -121,6 +184,8 @@ def eval_group(env, group, tier):
     try:
         if group.get('grouped'):
             return eval_grouped(env, root, group)
+        if group.get('gdiff'):
+            return eval_gdiff(env, root, group)
         if group.get('agg'):
             return eval_agg(env, root, group)
         if group.get('selonly'):
